@@ -2,6 +2,7 @@ package gen
 
 import (
 	"fmt"
+	"math/big"
 	"math/rand"
 	"sort"
 
@@ -1247,4 +1248,43 @@ func joinStr(xs []string, sep string) string {
 		out += x
 	}
 	return out
+}
+
+// LitNode builds the literal AST that denotes a wholly known value made of
+// primitives, tuples/lists (as tuple constructors) and objects/maps (as object
+// constructors with quoted keys).
+func LitNode(v cty.Value) *Node {
+	if v.IsNull() {
+		return Null()
+	}
+	ty := v.Type()
+	switch {
+	case ty == cty.String:
+		return StrLit(v.AsString())
+	case ty == cty.Number:
+		bf := v.AsBigFloat()
+		if bf.Sign() < 0 {
+			neg := new(big.Float).Neg(bf)
+			return &Node{Kind: KUnary, Op: "-", Kids: []*Node{Num(neg.Text('f', -1))}, Ty: cty.Number}
+		}
+		return Num(bf.Text('f', -1))
+	case ty == cty.Bool:
+		return Bool(v.True())
+	case ty.IsListType() || ty.IsTupleType() || ty.IsSetType():
+		n := &Node{Kind: KTuple, Ty: cty.DynamicPseudoType}
+		for it := v.ElementIterator(); it.Next(); {
+			_, ev := it.Element()
+			n.Kids = append(n.Kids, LitNode(ev))
+		}
+		return n
+	case ty.IsMapType() || ty.IsObjectType():
+		n := &Node{Kind: KObject, Ty: cty.DynamicPseudoType}
+		m := v.AsValueMap()
+		for _, k := range SortedKeys(m) {
+			n.Keys = append(n.Keys, ObjKey{Form: KeyQuoted, Expr: StrLit(k)})
+			n.Kids = append(n.Kids, LitNode(m[k]))
+		}
+		return n
+	}
+	return Null()
 }
